@@ -518,8 +518,11 @@ func TestCheckSites(t *testing.T) {
 		if c.Before != nil {
 			cls = append(cls, "after-another-document")
 		}
+		if c.Doc.IsBig() {
+			cls = append(cls, "big:>=20-people")
+		}
 		s.Eval(harness.JSON(c), st.nontriv, cls...)
-		if st.nontriv {
+		if st.nontriv && !c.Doc.IsBig() {
 			s.MaybeSample(c)
 		}
 		for _, fl := range fls {
